@@ -20,14 +20,33 @@ const KPW: &str = "key-password";
 struct Pool {
     open: HashMap<(String, bool), SignedSecretKey>,   // (name, v6)
     locked: HashMap<(String, bool), SignedSecretKey>, // same keys, all secret packets locked with KPW
+    sub_locked: HashMap<(String, bool), SignedSecretKey>, // only the encryption subkey locked
+    primary_locked: HashMap<(String, bool), SignedSecretKey>, // only the primary locked
+}
+
+/// cheap protection parameters (iterated+salted S2K with a small count): the default for v6 keys is
+/// Argon2, which would dominate the run time of thousands of decryptions
+fn fast_s2k(seed: u64) -> pgp::types::S2kParams {
+    use rand::RngCore;
+    let mut iv = vec![0u8; 16];
+    rng(seed ^ 0x1f).fill_bytes(&mut iv);
+    pgp::types::S2kParams::Cfb { sym_alg: SymmetricKeyAlgorithm::AES128, s2k: StringToKey::new_iterated(rng(seed), HashAlgorithm::Sha256, 8), iv: iv.into() }
 }
 
 fn lock(k: &SignedSecretKey, seed: u64) -> SignedSecretKey {
+    lock_part(k, seed, true, true)
+}
+
+fn lock_part(k: &SignedSecretKey, seed: u64, primary: bool, subs: bool) -> SignedSecretKey {
     let mut k = k.clone();
     let pw: Password = KPW.into();
-    k.primary_key.set_password(rng(seed), &pw).expect("lock primary");
-    for s in k.secret_subkeys.iter_mut() {
-        s.key.set_password(rng(seed ^ 1), &pw).expect("lock subkey");
+    if primary {
+        k.primary_key.set_password_with_s2k(&pw, fast_s2k(seed)).expect("lock primary");
+    }
+    if subs {
+        for (i, s) in k.secret_subkeys.iter_mut().enumerate() {
+            s.key.set_password_with_s2k(&pw, fast_s2k(seed ^ (1 + i as u64))).expect("lock subkey");
+        }
     }
     k
 }
@@ -35,6 +54,8 @@ fn lock(k: &SignedSecretKey, seed: u64) -> SignedSecretKey {
 fn pool(seed: u64, names: &[String]) -> Pool {
     let mut open = HashMap::new();
     let mut locked = HashMap::new();
+    let mut sub_locked = HashMap::new();
+    let mut primary_locked = HashMap::new();
     for (i, n) in names.iter().enumerate() {
         for v6 in [false, true] {
             let enc = match (i % 3, v6) {
@@ -47,10 +68,12 @@ fn pool(seed: u64, names: &[String]) -> Pool {
             };
             let k = gen_key(seed ^ (0xC18 + i as u64 * 2 + v6 as u64), v6, if v6 { &Alg::Ed25519 } else { &Alg::Ed25519Legacy }, Some(&enc), n).expect("keygen");
             locked.insert((n.clone(), v6), lock(&k, seed));
+            sub_locked.insert((n.clone(), v6), lock_part(&k, seed, false, true));
+            primary_locked.insert((n.clone(), v6), lock_part(&k, seed, true, false));
             open.insert((n.clone(), v6), k);
         }
     }
-    Pool { open, locked }
+    Pool { open, locked, sub_locked, primary_locked }
 }
 
 struct Built {
@@ -116,6 +139,21 @@ fn build_message(family: &str, esks: &[Value], pool: &Pool, seed: u64) -> Result
             let s2k = StringToKey::new_iterated(rng(seed ^ 0x52 ^ i as u64), HashAlgorithm::Sha256, 8);
             let p = if v2 {
                 SymKeyEncryptedSessionKey::encrypt_v6(rng(seed ^ 0x53 ^ i as u64), &pw, &sk, s2k, sym, AeadAlgorithm::Ocb).map_err(e)?
+            } else if esk["wrap"] == "other" {
+                // RFC 9580 5.3.1: the SKESK's own cipher (key-encryption) may differ from the session key's
+                let kek_alg = SymmetricKeyAlgorithm::AES256;
+                let kek = s2k.derive_key(&pw.read(), kek_alg.key_size()).map_err(e)?;
+                let mut ek = vec![u8::from(sym)];
+                ek.extend_from_slice(sk.as_ref());
+                let iv = vec![0u8; kek_alg.block_size()];
+                kek_alg.encrypt_with_iv_regular(kek.as_ref(), &iv, &mut ek).map_err(e)?;
+                let len = 2 + s2k.write_len() + ek.len();
+                SymKeyEncryptedSessionKey::V4 {
+                    packet_header: pgp::packet::PacketHeader::new_fixed(pgp::types::Tag::SymKeyEncryptedSessionKey, len as u32),
+                    sym_algorithm: kek_alg,
+                    s2k,
+                    encrypted_key: ek.into(),
+                }
             } else {
                 SymKeyEncryptedSessionKey::encrypt_v4(&pw, &sk, s2k, sym).map_err(e)?
             };
@@ -178,13 +216,18 @@ pub fn run(cases_path: &str, out_path: &str, _tier: &str, seed: u64) {
             let abort_early = cfg["abort_early"].as_bool().unwrap();
             let keys: Vec<&SignedSecretKey> = cfg["keys"].as_array().unwrap().iter().map(|k| {
                 let n = (k["key"].as_str().unwrap().to_string(), v2);
-                if k["lock"] == "open" { &pool.open[&n] } else { &pool.locked[&n] }
+                match k["lock"].as_str().unwrap() {
+                    "open" => &pool.open[&n],
+                    "sub_locked_right" => &pool.sub_locked[&n],
+                    "primary_locked_only" => &pool.primary_locked[&n],
+                    _ => &pool.locked[&n],
+                }
             }).collect();
             let right: Password = KPW.into();
             let wrong: Password = "not-the-key-password".into();
             let mut kpws: Vec<&Password> = Vec::new();
             if cfg["keys"].as_array().unwrap().iter().any(|k| k["lock"] == "locked_wrong") { kpws.push(&wrong); }
-            if cfg["keys"].as_array().unwrap().iter().any(|k| k["lock"] == "locked_right") { kpws.push(&right); }
+            if cfg["keys"].as_array().unwrap().iter().any(|k| k["lock"] == "locked_right" || k["lock"] == "sub_locked_right") { kpws.push(&right); }
             // a key that is "locked_wrong" must not become unlockable because another key's right password is
             // presented alongside: the model treats lock state per key, so skip such mixtures
             let mixed = kpws.len() == 2;
@@ -214,8 +257,15 @@ pub fn run(cases_path: &str, out_path: &str, _tier: &str, seed: u64) {
                 Out::Panic(_) => ("panic", false),
             };
             let ok = !wrong_plain && intended.contains(&class);
+            // v4 SKESKs carry no integrity check: a password that belongs to ANOTHER SKESK of the same message
+            // decrypts this one to garbage that passes the plausibility test with probability ~2 %, and the
+            // two "session keys" are then reported as inconsistent
+            let sk_pws: Vec<&str> = cfg["esks"].as_array().unwrap().iter().filter(|e| e["kind"] == "sk").map(|e| e["pw"].as_str().unwrap()).collect();
+            let foreign_v4 = !v2 && cfg["pws"].as_array().unwrap().iter().any(|p| sk_pws.iter().any(|q| *q != p.as_str().unwrap()) && sk_pws.iter().any(|q| *q == p.as_str().unwrap()));
             let key = if !ok && class == "ok" && !abort_early && cfg["sks"].as_array().unwrap().iter().any(|s| s == "bad") {
                 "ring_no_cross_group_check"
+            } else if !ok && class == "err" && foreign_v4 && r.detail().contains("inconsistent session keys") {
+                "skesk_v4_foreign_password_plausible"
             } else {
                 "ring"
             };
